@@ -89,6 +89,8 @@ def is_int(x):
 
 def defines(a, b):
     import numpy as np
+    if isinstance(a, list) and a and isinstance(a[0], list):
+        return True      # lists of paths are compared as sets elsewhere (same_path_set)
     if isinstance(a, np.ndarray) or isinstance(b, np.ndarray):
         return same_array(a, b)
     return a == b
@@ -262,3 +264,208 @@ def solve(A, b):
 def nd_of(mean, cov):
     from sempler.normal_distribution import NormalDistribution
     return NormalDistribution(mean, cov)
+
+
+def extensions_of(P):
+    """brute force: all consistent extensions of the PDAG P (DAGs with the same skeleton and v-structures keeping P's directed edges)"""
+    import itertools
+    import numpy as np
+    P = (np.asarray(P) != 0).astype(int)
+    p = len(P)
+    und = [(i, j) for i in range(p) for j in range(i) if P[i, j] and P[j, i]]
+
+    def vstructs(A):
+        out = set()
+        for c in range(p):
+            pa = [i for i in range(p) if A[i, c] and not A[c, i]]
+            for a, b in itertools.combinations(pa, 2):
+                if not A[a, b] and not A[b, a]:
+                    out.add((min(a, b), c, max(a, b)))
+        return out
+    res = []
+    for bits in itertools.product((0, 1), repeat=len(und)):
+        G = P.copy()
+        for (i, j), b in zip(und, bits):
+            if b:
+                G[i, j] = 0
+            else:
+                G[j, i] = 0
+        if acyclic(G) and vstructs(G) == vstructs(P):
+            res.append(G)
+    return res
+
+
+def acyclic(A):
+    import numpy as np
+    A = np.asarray(A)
+    n = len(A)
+    color = [0] * n
+
+    def dfs(u):
+        color[u] = 1
+        for v in range(n):
+            if A[u, v] != 0:
+                if color[v] == 1 or (color[v] == 0 and not dfs(v)):
+                    return False
+        color[u] = 2
+        return True
+    return all(color[u] != 0 or dfs(u) for u in range(n))
+
+
+def has_extension(P):
+    return len(extensions_of(P)) > 0
+
+
+def is_extension_of(G, P):
+    import numpy as np
+    G = (np.asarray(G) != 0).astype(int)
+    return any((G == E).all() for E in extensions_of(P))
+
+
+def _pat(G):
+    import numpy as np
+    return (np.asarray(G) != 0).astype(int)
+
+
+def _vstructs(A):
+    import itertools
+    p = len(A)
+    out = set()
+    for c in range(p):
+        pa = [i for i in range(p) if A[i, c] and not A[c, i]]
+        for a, b in itertools.combinations(pa, 2):
+            if not A[a, b] and not A[b, a]:
+                out.add((min(a, b), c, max(a, b)))
+    return out
+
+
+def mec_of(A):
+    """brute force Markov equivalence class: DAGs with the same skeleton and v-structures"""
+    import numpy as np
+    A = _pat(A)
+    skel = ((A + A.T) != 0).astype(int)
+    return extensions_of(skel) if False else [G for G in _orientations(skel) if acyclic(G) and _vstructs(G) == _vstructs(A)]
+
+
+def _orientations(skel):
+    import itertools
+    import numpy as np
+    p = len(skel)
+    und = [(i, j) for i in range(p) for j in range(i) if skel[i, j]]
+    for bits in itertools.product((0, 1), repeat=len(und)):
+        G = np.zeros((p, p), dtype=int)
+        for (i, j), b in zip(und, bits):
+            if b:
+                G[j, i] = 1
+            else:
+                G[i, j] = 1
+        yield G
+
+
+def imec_of(A, I):
+    A = _pat(A)
+    return [G for G in mec_of(A) if all((G[:, i] == A[:, i]).all() for i in I)]
+
+
+def union_graph(Gs):
+    import numpy as np
+    return (np.sum([_pat(G) for G in Gs], axis=0) != 0).astype(int)
+
+
+def same_pattern(A, B):
+    import numpy as np
+    return np.asarray(A).shape == np.asarray(B).shape and bool((_pat(A) == _pat(B)).all())
+
+
+def same_graph_set(R, Gs):
+    import numpy as np
+    R = [(_pat(G)).tobytes() for G in np.asarray(R)]
+    Gs = [(_pat(G)).tobytes() for G in Gs]
+    return len(R) == len(set(R)) and set(R) == set(Gs) and len(R) == len(Gs)
+
+
+def enumerates_mec(R, A):
+    return same_graph_set(R, mec_of(A))
+
+
+def enumerates_imec(R, A, I):
+    return same_graph_set(R, imec_of(A, I))
+
+
+def enumerates_extensions(R, P):
+    return same_graph_set(R, extensions_of(P))
+
+
+def is_cpdag_of(C, A):
+    return same_pattern(C, union_graph(mec_of(A)))
+
+
+def is_icpdag_of(C, A, I):
+    return same_pattern(C, union_graph(imec_of(A, I)))
+
+
+def any_extension_cpdag(C, P):
+    return any(same_pattern(C, union_graph(mec_of(G))) for G in extensions_of(P))
+
+
+def reach(A, i, j):
+    """directed reachability i ->* j along edges u -> v (A[u,v] != 0 and A[v,u] == 0), reflexive"""
+    import numpy as np
+    A = np.asarray(A)
+    n = len(A)
+    if not (0 <= i < n and 0 <= j < n):
+        return False
+    seen, stack = {i}, [i]
+    while stack:
+        u = stack.pop()
+        for v in range(n):
+            if A[u, v] != 0 and A[v, u] == 0 and v not in seen:
+                seen.add(v); stack.append(v)
+    return j in seen
+
+
+def ucomp(A, i, j):
+    import numpy as np
+    A = np.asarray(A)
+    n = len(A)
+    if not (0 <= i < n and 0 <= j < n):
+        return False
+    seen, stack = {i}, [i]
+    while stack:
+        u = stack.pop()
+        for v in range(n):
+            if A[u, v] != 0 and A[v, u] != 0 and v not in seen:
+                seen.add(v); stack.append(v)
+    return j in seen
+
+
+def closed_superset(*a):
+    return True
+
+
+def sd_paths(G, a, b):
+    """all simple paths from a to b following directed edges forwards or undirected edges (order unspecified)"""
+    import numpy as np
+    G = np.asarray(G)
+    n = len(G)
+    out = []
+
+    def go(u, path):
+        if u == b:
+            out.append(path + [u])
+            return
+        for v in range(n):
+            if G[u, v] != 0 and v not in path and v != u:
+                go(v, path + [u])
+    go(a, [])
+    return out
+
+
+def same_list(a, b):
+    return [int(x) for x in a] == [int(x) for x in b]
+
+
+def same_path_set(R, P):
+    r = [tuple(int(x) for x in p) for p in R]
+    q = [tuple(int(x) for x in p) for p in P]
+    return len(r) == len(set(r)) and set(r) == set(q) and len(r) == len(q)
